@@ -17,6 +17,7 @@ pub struct State {
     pub book: Spreadsheet,
     pub nsheets: usize,
     pub saved: [Option<(Vec<u8>, String)>; 2], // per writer: package bytes and facts
+    pub twin: [Option<(Vec<u8>, String)>; 2],  // per writer: package bytes of the workbook without the cells that hold a character outside XML 1.0 Char, and the list of those cells
 }
 impl State {
     pub fn new(n: usize) -> Self {
@@ -24,7 +25,7 @@ impl State {
         for i in 1..n {
             let _ = book.new_sheet(format!("S{}", i + 1));
         }
-        State { book, nsheets: n, saved: [None, None] }
+        State { book, nsheets: n, saved: [None, None], twin: [None, None] }
     }
 }
 
@@ -528,6 +529,112 @@ fn gen_rawload(rng: &mut Rng) -> String {
     )
 }
 
+
+// ------------------------------------------------------------------------------------ character-level leg
+
+/// XML 1.0 production [2] Char
+fn is_xml_char(c: char) -> bool {
+    let n = c as u32;
+    n == 0x9 || n == 0xA || n == 0xD || (0x20..=0xD7FF).contains(&n) || (0xE000..=0xFFFD).contains(&n) || (0x10000..=0x10FFFF).contains(&n)
+}
+fn all_xml(s: &str) -> bool {
+    s.chars().all(is_xml_char)
+}
+/// every text of a cell that reaches a part: value text, formula text, run texts
+fn cell_texts(c: &Cell) -> Vec<String> {
+    let mut v = vec![c.get_value().to_string()];
+    if c.is_formula() {
+        v.push(c.get_formula().to_string());
+    }
+    if let CellRawValue::RichText(rt) = c.get_raw_value() {
+        for e in rt.get_rich_text_elements() {
+            v.push(e.get_text().to_string());
+        }
+    }
+    if let CellRawValue::Lazy(s) = c.get_raw_value() {
+        v.push(s.to_string());
+    }
+    v
+}
+/// the worksheet parts (in order) and the shared-strings part of a package, as text
+fn parts_of(buf: &[u8], nsheets: usize) -> Result<(Option<String>, Vec<String>), String> {
+    let parts = unzip_all(buf)?;
+    let get = |name: &str| -> Option<String> { parts.iter().find(|p| p.0 == name).and_then(|p| String::from_utf8(p.1.clone()).ok()) };
+    let mut sheets = vec![];
+    for i in 1..=nsheets {
+        sheets.push(get(&format!("xl/worksheets/sheet{}.xml", i)).ok_or(format!("sheet{} missing or not UTF-8", i))?);
+    }
+    Ok((get("xl/sharedStrings.xml"), sheets))
+}
+fn parts_hex(sst: &Option<String>, sheets: &[String]) -> String {
+    format!("{} {}", sst.as_ref().map(|s| hex(s)).unwrap_or("~".into()), sheets.iter().map(|s| hex(s)).collect::<Vec<_>>().join("|"))
+}
+/// the workbook without the cells that hold a character outside XML 1.0 `Char`, and the list `s:col:row` of those cells
+fn xml_twin(book: &Spreadsheet, n: usize) -> (Spreadsheet, Vec<String>) {
+    let mut twin = book.clone();
+    let mut drop = vec![];
+    for i in 0..n {
+        let bad: Vec<(u32, u32)> = book
+            .get_sheet(&i)
+            .unwrap()
+            .get_cell_collection_sorted()
+            .iter()
+            .filter(|c| cell_texts(c).iter().any(|t| !all_xml(t)))
+            .map(|c| (*c.get_coordinate().get_col_num(), *c.get_coordinate().get_row_num()))
+            .collect();
+        for (col, row) in bad {
+            twin.get_sheet_mut(&i).unwrap().remove_cell((col, row));
+            drop.push(format!("{}:{}:{}", i, col, row));
+        }
+    }
+    (twin, drop)
+}
+/// what the character-level reader of the model can say about a reloaded cell: run properties only as present / absent;
+/// a formula whose cached value is the empty text is the same tree as a formula without cached value
+fn chars_view(d: &[Vec<CellD>]) -> Vec<Vec<CellD>> {
+    d.iter()
+        .map(|s| {
+            s.iter()
+                .map(|c| {
+                    let mut c = c.clone();
+                    if c.runs != "~" && c.runs != "-" {
+                        c.runs = c.runs.split('+').map(|r| { let (f, t) = r.split_once(':').unwrap(); format!("{}:{}", if f == "~" { "~" } else { "0" }, t) }).collect::<Vec<_>>().join("+");
+                    }
+                    if c.formula != "~" && c.kind == "s" && c.val == "-" {
+                        c.kind = "z".into();
+                    }
+                    c
+                })
+                .collect()
+        })
+        .collect()
+}
+fn count_chars_leg(out: &mut Out, book: &Spreadsheet, n: usize) {
+    for i in 0..n {
+        for c in book.get_sheet(&i).unwrap().get_cell_collection_sorted() {
+            out.count(&format!("chars.kind.{}{}", kind_of(c), if c.is_formula() { "+f" } else { "" }));
+            for t in cell_texts(c) {
+                for (key, hit) in [
+                    ("amp", t.contains('&')), ("lt", t.contains('<')), ("gt", t.contains('>')), ("quot", t.contains('"')), ("apos", t.contains('\'')),
+                    ("cr", t.contains('\r')), ("lf", t.contains('\n')), ("tab", t.contains('\t')), ("cdata-end", t.contains("]]>")),
+                    ("lead-blank", t.starts_with(|c: char| c.is_whitespace())), ("trail-blank", t.ends_with(|c: char| c.is_whitespace())),
+                    ("nbsp", t.contains('\u{a0}')), ("u2028", t.contains('\u{2028}')), ("u3000", t.contains('\u{3000}')), ("u85", t.contains('\u{85}')),
+                    ("non-bmp", t.chars().any(|c| c as u32 > 0xFFFF)), ("non-ascii", t.chars().any(|c| c as u32 > 0x7F)), ("empty", t.is_empty()),
+                ] {
+                    if hit {
+                        out.count(&format!("chars.text.{}", key));
+                    }
+                }
+            }
+        }
+    }
+}
+/// the f64 Display / FromStr hypothesis (`NumFmt.Sound`) on one number
+fn numfmt_ok(v: f64) -> bool {
+    let t = format!("{}", v);
+    !t.is_empty() && t.chars().all(|c| "-0123456789.eE+infNa".contains(c)) && t.parse::<f64>().map(|x| x.to_bits()) == Ok(v.to_bits())
+}
+
 // ------------------------------------------------------------------------------------ executor
 
 fn save_bytes(book: &Spreadsheet, light: bool) -> Result<Vec<u8>, String> {
@@ -710,8 +817,22 @@ pub fn exec(out: &mut Out, st: &mut State, line: &str) -> (String, bool) {
                 if !apply_op(cell, name, arg) {
                     return "bad-op".to_string();
                 }
+                if let CellRawValue::Numeric(v) = cell.get_raw_value() {
+                    if !numfmt_ok(*v) {
+                        return format!("numfmt {:016x}", v.to_bits());
+                    }
+                }
                 obs(cell)
             });
+            if let Ok(x) = &r {
+                if let Some(bits) = x.strip_prefix("numfmt ") {
+                    out.oracle_fail(Fail::new("numfmt-hypothesis").with("op", line).with("bits", bits));
+                    return ("numfmt-hypothesis-fails".into(), true);
+                }
+                if x.starts_with("n ") {
+                    out.count("numfmt.checked");
+                }
+            }
             match r {
                 Ok(x) => (x, true),
                 Err(_) => ("panic".into(), false),
@@ -796,6 +917,42 @@ pub fn exec(out: &mut Out, st: &mut State, line: &str) -> (String, bool) {
                     ("panic".into(), false)
                 }
             }
+        }
+        "chars" => {
+            // chars <w> drop=… <sst hex|~> <sheets hex>: the character-level leg. The parts in the request are those of the
+            // package saved from the workbook without the cells that hold a non-XML character (`st.twin`); the reply is what the
+            // library reloads from that package, in the vocabulary of the model's character-level reader
+            let light = a[2] == "light";
+            let bytes = match &st.twin[light as usize] {
+                Some((b, _)) => b.clone(),
+                None => return ("bad-op".into(), false),
+            };
+            let n = st.nsheets;
+            match guard(|| umya_spreadsheet::reader::xlsx::read_reader(Cursor::new(bytes), true).map(|b| chars_view(&dump_book(&b, n)))) {
+                Ok(Ok(got)) => {
+                    out.count_n("chars.cells", got.iter().map(|s| s.iter().filter(|c| !c.blank_unstyled()).count() as u64).sum());
+                    (format!("render=same xml {}", render_dump(&got)), true)
+                }
+                Ok(Err(e)) => {
+                    out.oracle_fail(Fail::new("load-failed").with("op", "c01 chars").with("detail", format!("{:?}", e)));
+                    ("err".into(), false)
+                }
+                Err(_) => ("panic".into(), false),
+            }
+        }
+        "charsorig" => {
+            // charsorig <sst hex|~> <sheets hex>: the parts of the package as saved, when some text holds a non-XML character
+            let mut bad = 0;
+            if a[2] != "~" && !all_xml(&String::from_utf8_lossy(&unhex(a[2]))) {
+                bad += 1;
+            }
+            for p in a[3].split('|') {
+                if !all_xml(&String::from_utf8_lossy(&unhex(p))) {
+                    bad += 1;
+                }
+            }
+            out.count_n("chars.nonxml.parts", bad);
+            (format!("nonxml-parts={} rejected={}", bad, bad), true)
         }
         "rawload" => {
             // rawload cells=<facts> sst=<facts>: a package whose sheet1 / sharedStrings parts are synthesised from the facts
@@ -1028,6 +1185,50 @@ pub fn run(out: &mut Out, tier: Tier, seed: u64, replay: Option<Vec<String>>) {
                 Some((_, f)) => format!("c01 load {} {}", a[2], f),
                 None => return,
             }
+        } else if a.get(1) == Some(&"charsorig") {
+            return; // re-issued by the `chars` line that follows (also on replay)
+        } else if a.get(1) == Some(&"chars") {
+            // the character-level leg: built from the saved package of this writer (also on replay)
+            let light = a.get(2) == Some(&"light");
+            let n = st.nsheets;
+            let saved = match &st.saved[light as usize] {
+                Some((b, _)) => b.clone(),
+                None => return,
+            };
+            let (sst, sheets) = match parts_of(&saved, n) {
+                Ok(x) => x,
+                Err(_) => return,
+            };
+            let clean = sst.as_ref().map(|s| all_xml(s)).unwrap_or(true) && sheets.iter().all(|s| all_xml(s));
+            if clean {
+                out.count("chars.books.xml");
+                count_chars_leg(out, &st.book, n);
+                st.twin[light as usize] = Some((saved, "~".into()));
+                format!("c01 chars {} drop=~ {}", a[2], parts_hex(&sst, &sheets))
+            } else {
+                out.count("chars.books.nonxml");
+                // first: the parts as saved are rejected by an XML 1.0 reader
+                let orig = format!("c01 charsorig {}", parts_hex(&sst, &sheets));
+                out.begin(&orig);
+                let (r, nt) = exec(out, st, &orig);
+                out.count("op.charsorig");
+                out.end(&orig, &r, nt);
+                // then the leg on the workbook without the cells that hold such a character
+                let (twin, drop) = xml_twin(&st.book, n);
+                out.count_n("chars.dropped.nonxml-cells", drop.len() as u64);
+                let tb = match guard(|| save_bytes(&twin, light)) {
+                    Ok(Ok(b)) => b,
+                    _ => return,
+                };
+                let (tsst, tsheets) = match parts_of(&tb, n) {
+                    Ok(x) => x,
+                    Err(_) => return,
+                };
+                count_chars_leg(out, &twin, n);
+                let d = drop.join(",");
+                st.twin[light as usize] = Some((tb, d.clone()));
+                format!("c01 chars {} drop={} {}", a[2], d, parts_hex(&tsst, &tsheets))
+            }
         } else {
             l.to_string()
         };
@@ -1107,6 +1308,7 @@ pub fn run(out: &mut Out, tier: Tier, seed: u64, replay: Option<Vec<String>>) {
         for w in ["std", "light"] {
             do_line(out, &mut st, &format!("c01 save {}", w));
             do_line(out, &mut st, &format!("c01 load {}", w));
+            do_line(out, &mut st, &format!("c01 chars {}", w));
         }
     }
     let raws = if tier == Tier::Thorough { 40_000 } else { 3_000 };
